@@ -23,7 +23,54 @@ func c09R5(c *Ctx, rule string) {
 	if fi == nil || fGM == nil {
 		return
 	}
-	g := c.P.GraphOf(fi)
+	// the scans may live in CreateOffer itself or in same-package helpers it calls (depth 2)
+	graphs := []*core.Graph{c.P.GraphOf(fi)}
+	{
+		seen := map[*core.FuncInfo]bool{fi: true}
+		frontier := []*core.FuncInfo{fi}
+		for depth := 0; depth < 2; depth++ {
+			var next []*core.FuncInfo
+			for _, f := range frontier {
+				ast.Inspect(f.Decl.Body, func(x ast.Node) bool {
+					if call, ok := x.(*ast.CallExpr); ok {
+						if fn := core.Callee(f.Pkg.TypesInfo, call); fn != nil {
+							if d := c.P.DeclOf(fn); d != nil && d.Pkg == fi.Pkg && d.Decl.Body != nil && !seen[d] {
+								seen[d] = true
+								writes := false
+								ast.Inspect(d.Decl.Body, func(y ast.Node) bool {
+									if as, ok := y.(*ast.AssignStmt); ok {
+										for _, l := range as.Lhs {
+											if core.FieldOf(d.Pkg.TypesInfo, l) == fGM {
+												writes = true
+											}
+										}
+									}
+									return true
+								})
+								if writes {
+									graphs = append(graphs, c.P.GraphOf(d))
+								}
+								next = append(next, d)
+							}
+						}
+					}
+					return true
+				})
+			}
+			frontier = next
+		}
+	}
+	n := 0
+	for _, g := range graphs {
+		n += c09R5Graph(c, rule, g, fGM)
+	}
+	if n < 2 {
+		r.Fail(rule, "CreateOffer|scans", c.P.Pos(fi.Decl.Pos()), sprintf("expected the scans over the current remote description's sections and over the transceivers, found %d loop(s) that raise greaterMid", n))
+	}
+}
+
+func c09R5Graph(c *Ctx, rule string, g *core.Graph, fGM *types.Var) int {
+	r := c.R
 	info := g.Info
 	mentionsGM := func(n ast.Node) bool {
 		found := false
@@ -121,9 +168,7 @@ func c09R5(c *Ctx, rule string) {
 		key := "CreateOffer|scan:" + c06Canon(g, l.Head, l.Range.X)
 		r.Check(bad == "", rule, key, c.P.Pos(l.Range.Pos()), "every element with a numeric mid raises the counter before a fresh mid is handed out", bad+": a fresh mid handed out later can equal a mid that already appeared in an earlier description")
 	}
-	if n < 2 {
-		r.Fail(rule, "CreateOffer|scans", c.P.Pos(fi.Decl.Pos()), sprintf("expected the scans over the current remote description's sections and over the transceivers, found %d loop(s) that raise greaterMid", n))
-	}
+	return n
 }
 
 // c09R6: a data-section mid computed from the number of sections so far is evaluated where the
